@@ -31,7 +31,7 @@ static void* pugiAlloc(size_t n) { try { return ::operator new(n); } catch (cons
 static void pugiFree(void* p) { ::operator delete(p); }
 
 struct Doc { std::string name; Val v; };
-static std::vector<Doc> corpus(int arch) {
+static std::vector<Doc> corpus(int arch, bool thorough = false) {
 	using V = Val; std::vector<Doc> r;
 	if (arch == tl::Csv) {
 		auto row = [](Val a, Val b, Val c) { return V::map({{V::str("a"), a}, {V::str("b"), b}, {V::str("c"), c}}); };
@@ -46,8 +46,9 @@ static std::vector<Doc> corpus(int arch) {
 	if (arch == tl::MsgPack) {
 		// [padding string of k bytes, scalars..., X]: X is the last value, so that a read that wrongly succeeds inside it makes the whole load succeed
 		static const std::pair<const char*, Val> last[] = {{"u32", V::integer(70000)}, {"i64", V::integer(-(1ll << 40))}, {"f64", V::dbl(1.5)}, {"u64", V::integer(1ll << 33)}};
-		for (auto& x : last) for (size_t k = 0; k < 32; ++k) {
-			size_t pad = k < 16 ? k : 236 + (k - 16);
+		// quick: paddings 0..15 and 236..251 (every alignment of both chunk sizes); thorough: every padding 0..271
+		for (auto& x : last) for (size_t k = 0; k < (thorough ? 272u : 32u); ++k) {
+			size_t pad = thorough ? k : k < 16 ? k : 236 + (k - 16);
 			r.push_back({std::string("wide_") + x.first + "_pad" + std::to_string(pad), V::arr({V::str(std::string(pad, 'p')), V::integer(300), V::dbl(2.5), x.second})});
 		}
 	}
@@ -247,7 +248,7 @@ static void body(bsx::Ctx& c) {
 	static bool once = (pugi::set_memory_management_functions(pugiAlloc, pugiFree), true); (void)once;
 	const bool thorough = c.tier == "thorough";
 	int scen = c.choose(8, "scenario");
-	static std::vector<Doc> C[4] = {corpus(0), corpus(1), corpus(2), corpus(3)};
+	static std::vector<Doc> C[4] = {corpus(0, thorough), corpus(1, thorough), corpus(2, thorough), corpus(3, thorough)};
 	static const char* scenName[] = {"load_truncated", "load_alloc_fail", "save_alloc_fail", "load_stream_fault", "save_stream_fault", "mid_operation_error", "typed_alloc_fail"};
 	if (scen == 7) {
 		int kind = c.choose(11, "kind");
